@@ -37,6 +37,8 @@ from ..parser import replace
 
 # external _imports
 import subprocess
+import hashlib
+import importlib
 import sys
 import os
 import numpy as np
@@ -272,6 +274,14 @@ class FortranBackend(BaseBackend):
             f.writelines(func_file)
             f.close()
 
+        # name of the extension module: unique per generated source.  CPython keeps an imported (single-phase) extension
+        # module per name for the life of the process - deleting sys.modules[name] in clear() does not unload it - so a
+        # second model compiled under the same `file_name` used to get the FIRST model's routine back from
+        # `from <file_name> import <file_name>`; and a Python module of that name left in sys.modules by the default
+        # backend made the import fail.  The Fortran-level module keeps the name `self._fname`.
+        with open(file, 'r') as f:
+            ext_name = f"{self._fname}_{hashlib.sha256(f.read().encode('utf-8')).hexdigest()[:12]}"
+
         # compile fortran function via f2py.  Use sys.executable so we hit
         # the same interpreter (and therefore the same numpy) the caller is
         # running, drop shell=True (small command-injection surface around
@@ -279,7 +289,7 @@ class FortranBackend(BaseBackend):
         # exception instead of letting the next `import` line fail with an
         # opaque ImportError.
         completed = subprocess.run(
-            [sys.executable, '-m', 'numpy.f2py', '-c', '-m', self._fname, file],
+            [sys.executable, '-m', 'numpy.f2py', '-c', '-m', ext_name, file],
             capture_output=True, text=True,
         )
         if completed.returncode != 0:
@@ -291,9 +301,8 @@ class FortranBackend(BaseBackend):
             )
 
         # import function from temporary file
-        exec(f"from {self._fname} import {self._fname}", globals())
-        exec(f"rhs_eval = {self._fname}.{func_name}", globals())
-        rhs_eval = globals().pop('rhs_eval')
+        importlib.invalidate_caches()
+        rhs_eval = getattr(getattr(importlib.import_module(ext_name), self._fname), func_name)
 
         rhs_eval = self._apply_decorator(rhs_eval, **kwargs)
 
